@@ -942,3 +942,128 @@ def _c19_predicates(rep, t, x, case, tag):
         want_pt = "non-box constraints" if sp["cons"] else ("unconstrained" if sp["geom"] == "unbounded" else "bound constraints")
         if res["problem_type"] != want_pt:
             rep.violation("result_fields", "optimize_result.py", f"problem_type={res['problem_type']} expected {want_pt}; {tag}", case)
+
+
+# ------------------------------------------------------------------------------------------------
+# deterministic runs replayed through the COMPOSED model Det.step (DetRun.lean)
+
+def det_extract(t):
+    """Oracle stream and initial state of one deterministic traced run for `det.replay` (None if not applicable)."""
+    x = ctl_extract(t)
+    if x is None:
+        return None
+    ev = t["events"]
+    ftab, init_log, iters, cur = {}, [], [], None
+    for k, e in ev:
+        if k == "CALL" and "exc" not in e:
+            ftab[tuple(enc_pt(e["u"]))] = enc(e["ret"][0])
+            if e["rec"]:
+                if cur is None:
+                    init_log.append({"u": enc_pt(e["u"]), "y": enc(e["ret"][0])})
+                elif e["phase"] == "search":
+                    cur["searchPick"] = enc_pt(e["u"])
+                    cur["evals"].append(enc_pt(e["u"]))
+                elif e["phase"] == "poll":
+                    cur["pollPicks"].append(enc_pt(e["u"]))
+                    cur["evals"].append(enc_pt(e["u"]))
+                else:
+                    cur["odd"] = f"recorded call #{e['k']} in phase {e['phase']} inside the loop"
+            elif cur is not None:
+                cur["odd"] = f"unrecorded call #{e['k']} inside the loop of a deterministic run"
+        elif k == "ITER":
+            cur = {"h": enc(e["sms"]), "searchU": [], "searchPick": None, "pollU": [], "pollPicks": [], "evals": [], "thr_s": None, "start": e}
+            iters.append(cur)
+        elif cur is not None:
+            if k == "FILT" and e["site"] in ("search", "poll"):
+                if "U" not in e:
+                    cur["odd"] = "candidate set too large to be recorded"
+                elif e["site"] == "search":
+                    cur["searchU"] = enc_pts(e["U"])
+                else:
+                    if cur["pollU"]:
+                        cur["odd"] = "two poll candidate sets in one iteration"
+                    cur["pollU"] = enc_pts(e["U"])
+            elif k == "SRCH":
+                cur["thr_s"] = enc(e["thr"])
+    iters = iters[: x["iters"]]
+    orcs = []
+    for it, o in zip(iters, x["outs"]):
+        if it.get("odd"):
+            return {"skip": it["odd"]}
+        thr = o["thr"] if o["zs"] or it["thr_s"] is None else it["thr_s"]
+        if it["thr_s"] is not None and o["zs"] and it["thr_s"] != o["thr"]:
+            return {"skip": "search and poll thresholds differ within an iteration"}
+        orcs.append({"h": it["h"], "searchU": it["searchU"], "searchPick": it["searchPick"], "pollU": it["pollU"], "pollPicks": it["pollPicks"],
+                     "thr": thr, "stallMesh": o["stallMesh"], "stallStop": o["stallStop"]})
+    s0 = iters[0]["start"]
+    hdr = t["hdr"]
+    req = {"cmd": "det.replay",
+           "env": {"lb": [enc(v) for v in hdr["lb"]], "ub": [enc(v) for v in hdr["ub"]], "origLo": [enc(v) for v in hdr["orig_lb"]],
+                   "origHi": [enc(v) for v in hdr["orig_ub"]], "tol": enc(hdr["tol_mesh"])},
+           "opts": x["opts"], "f": [{"u": list(p), "y": y} for p, y in ftab.items()],
+           "init": {"log": init_log, "inc": {"u": enc_pt(s0["u"]), "fval": enc(s0["fval"])}, "fc": x["init"]["fc"], "nRec": x["init"]["nRec"], "msi": x["init"]["msi"]},
+           "orcs": orcs}
+    if t["spec"]["cons"]:
+        _u0, _steps, _calls, cons_tbl, _problems = pipe_extract(t)
+        req["cons"] = [{"p": list(p), "v": v} for p, v in cons_tbl.items()]
+    return {"req": req, "iters": iters, "x": x}
+
+
+def det_replay(ctx, rep):
+    """Every deterministic traced run through Det.step: evaluated points, derived improvements, incumbent and counters per iteration."""
+    traces = [t for t in get_pool(ctx) if t["constructed"] and t["hdr"] is not None and t["spec"]["mode"] == "det" and t.get("final")
+              and t["final"].get("unc") == 0 and not t.get("ei_script") and not t.get("es_script")]
+    items, skipped = [], {}
+    for t in traces:
+        d = det_extract(t)
+        if d is None:
+            skipped["no loop / non-dyadic tol_mesh"] = skipped.get("no loop / non-dyadic tol_mesh", 0) + 1
+        elif "skip" in d:
+            skipped[d["skip"]] = skipped.get(d["skip"], 0) + 1
+        else:
+            items.append((t, d))
+    res = ctx.driver.call_many([d["req"] for _, d in items])
+    stats = {"runs": 0, "iterations": 0, "evaluations": 0, "improvements_compared": 0, "constrained_runs": 0, "skipped": skipped}
+    for (t, d), r in zip(items, res):
+        sp = t["spec"]
+        tag = spec_tag(sp)
+        case = {"kind": "det_run", "spec": sp}
+        stats["runs"] += 1
+        stats["constrained_runs"] += bool(sp["cons"])
+        x, iters = d["x"], d["iters"]
+        states = r["states"]
+        completed = t["error"] is None
+        for k, (st, it, o) in enumerate(zip(states, iters, x["outs"])):
+            stats["iterations"] += 1
+            c = st["ctl"]
+            if not st["searchFound"] or not st["pollFound"]:
+                rep.disagree("Det.step ~ evaluated points are rows of the filtered candidate sets", f"iteration {k}: an evaluated {'search' if not st['searchFound'] else 'poll'} point is not in the model's filtered set; {tag}", case)
+                break
+            if it["searchPick"] is None and st["searchWouldEvaluate"] and it["thr_s"] is not None:
+                rep.disagree("Det.step ~ search evaluates a surviving candidate", f"iteration {k}: the search step evaluated nothing although a candidate survived the filter; {tag}", case)
+                break
+            if st["newEvals"] != it["evals"]:
+                rep.disagree("Det.step ~ sequence of evaluated points", f"iteration {k}: model evaluates {len(st['newEvals'])} points, run {len(it['evals'])}; {tag}", case)
+                break
+            stats["evaluations"] += len(it["evals"])
+            if o["zs"]:
+                stats["improvements_compared"] += len(o["zs"])
+                if st["zs"] != o["zs"]:
+                    rep.disagree("Det.outOf ~ _eval_improvement_ (deterministic: fval - y)", f"iteration {k}: derived poll improvements {st['zs'][:4]} observed {o['zs'][:4]}; {tag}", case)
+                    break
+            last = k == len(iters) - 1
+            if not last:
+                nxt = iters[k + 1]["start"]
+                mod = (c["fc"], c["nRec"], c["sc"], c["ss"], c["msi"], c["pollIter"], c["finished"], st["incU"], st["incF"])
+                obsv = (nxt["fc"], nxt["nrec"], nxt["sc"], nxt["ss"], nxt["msi"], nxt["it"], False, enc_pt(nxt["u"]), enc(nxt["fval"]))
+                if mod != obsv:
+                    rep.disagree("Det.step ~ optimize loop (deterministic run)", f"iteration {k}: model (fc,nRec,sc,ss,msi,iter,finished,u,fval)={mod} observed {obsv}; {tag}", case)
+                    break
+            elif completed:
+                f = t["final"]
+                mod = (c["fc"], c["msi"], c["finished"], st["incU"], st["incF"])
+                obsv = (t["log"]["func_count"] - len(x["tail_calls"]), f["msi"], True, enc_pt(f["u"]), enc(t["result"]["fval"]))
+                if mod != obsv:
+                    rep.disagree("Det.step ~ optimize loop (exit, deterministic run)", f"last iteration {k}: model (fc,msi,finished,u,fval)={mod} observed {obsv}; {tag}", case)
+                    break
+    return stats
